@@ -34,6 +34,7 @@ type batchSpec struct {
 	Special   string // env | audit : driver-side comparisons on top of worker results
 	FaultFree bool
 	EnvV      *envVariant
+	Share     float64 // share of the check's time budget (default: equal shares)
 }
 
 func jsonRoundTrip(in any, out any) error {
@@ -387,7 +388,24 @@ func driveMain(args []string) {
 
 	var aggs []*batchAgg
 	var harness []string
+	shareLeft := 0.0
 	for _, b := range cp.Batches {
+		if b.Share <= 0 {
+			b.Share = 1
+		}
+		shareLeft += b.Share
+	}
+	for _, b := range cp.Batches {
+		if b.Share <= 0 {
+			b.Share = 1
+		}
+		// every batch gets its share of what is left of the budget; unused time rolls over
+		left := time.Until(start.Add(time.Duration(cp.BudgetS) * time.Second))
+		if left < 0 {
+			left = 0
+		}
+		deadline = time.Now().Add(time.Duration(float64(left) * b.Share / shareLeft))
+		shareLeft -= b.Share
 		b.Runs = int(float64(b.Runs) * *scale)
 		if b.Runs < 1 {
 			b.Runs = 1
